@@ -87,7 +87,7 @@ def main():
                 idx = np.arange(-elo, N + ehi + 1, dtype=float)
                 sall = np.array([float(f(float(i))) for i in idx])
                 s = sall[elo:elo + N + 1]
-                rec["s"] = [int(round(v / L * 1e9)) for v in s]
+                rec["s"] = [int(np.clip(np.nan_to_num(round(v / L * 1e9), nan=-1e9), -1e9, 2e9)) for v in s]      # 32-bit range of TLC
                 rec["ext_ok"] = 1 if np.all(sall[1:] > sall[:-1]) else 0
                 iN_end = N / N_norm
                 if method == "sqrt":
@@ -103,7 +103,8 @@ def main():
                 else:
                     got_lo = got_hi = 1.0
                     tol = 1000
-                rec["endg"] = {"lo": {"req": 1, "got": int(round(got_lo * 1e6)), "tol": tol}, "hi": {"req": 1, "got": int(round(got_hi * 1e6)), "tol": tol}}
+                cl = lambda g: int(np.clip(np.nan_to_num(g * 1e6, nan=-1e9), -1e9, 1e9))  # noqa: E731
+                rec["endg"] = {"lo": {"req": 1, "got": cl(got_lo), "tol": tol}, "hi": {"req": 1, "got": cl(got_hi), "tol": tol}}
             except ValueError as e:
                 rec["raised"] = 1
                 rec["exc"] = str(e)[:80]
